@@ -212,6 +212,13 @@ def _emit_extracted(u, target, args, block, subst, emit):
     sig = rule_R1_R3(ft.sig, fired)
     body = rule_R1_R3(ft.body, fired)
     body = r4.apply(body, fired)
+    # stated substitutions (`subst="old=>new|old2=>new2"`): literal replacements on the extracted text, recorded in the rule list of the function
+    for pair in [x for x in args.get('subst', '').split('|') if '=>' in x]:
+        a_, b_ = pair.split('=>', 1)
+        if a_ not in body:
+            raise ExtractError(f'lost anchor: text to substitute `{a_}` not found in {relpath}::{fname}')
+        body = body.replace(a_, b_)
+        fired.add('subst[' + a_ + ' => ' + b_ + ']')
     if 'ret' in args:
         sig = name_return(sig, args['ret'])
     if 'rename' in args:
